@@ -125,6 +125,15 @@ pub fn hash_ops_allocs<V: Variant>(bytes: &[u8], other: &[u8]) -> (u64, &'static
     note(n, "clear_checksum");
     let (_, n) = armed(|| V::compare_with(t, t));
     note(n, "compare_with (strings)");
+    let lower = t.to_ascii_lowercase();
+    for (l, r) in [(t, &t[2..]), (&t[2..], lower.as_str()), (t, ""), ("", t), ("TNULL", "TNULL"), (&t[1..], t), (lower.as_str(), t), (t, "T1zz")] {
+        let (_, n) = armed(|| V::compare_with(l, r));
+        note(n, "compare_with (strings, error paths)");
+    }
+    if V::NAME == "Normal" {
+        let (_, n) = armed(|| tlsh::compare(t, "TNULL"));
+        note(n, "compare (strings, error path)");
+    }
     worst
 }
 
